@@ -146,6 +146,126 @@ pub fn nonlinear_only(a: &DSol, b: &DSol) -> bool {
     }
 }
 
+/// Top-level items of a `.chalk` text (every item of the text families ends with a `}` at brace depth 0).
+fn split_items(text: &str) -> Vec<String> {
+    let mut items = vec![];
+    let mut depth = 0i32;
+    let mut cur = String::new();
+    for ch in text.chars() {
+        cur.push(ch);
+        match ch {
+            '{' => depth += 1,
+            '}' => {
+                depth -= 1;
+                if depth == 0 {
+                    items.push(cur.trim().to_string());
+                    cur.clear();
+                }
+            }
+            _ => {}
+        }
+    }
+    if !cur.trim().is_empty() {
+        items.push(cur.trim().to_string());
+    }
+    items
+}
+
+/// Reorderings of a text-level program: every permutation of its impls (declarations first),
+/// impls before all declarations, declarations reversed, everything reversed.
+fn text_variants(program: &str) -> Vec<(String, String)> {
+    let items = split_items(program);
+    let (impls, decls): (Vec<String>, Vec<String>) = items.iter().cloned().partition(|i| i.starts_with("impl"));
+    let join = |a: &[String], b: &[String]| a.iter().chain(b.iter()).cloned().collect::<Vec<_>>().join(" ");
+    let mut out = vec![];
+    if impls.len() <= 4 {
+        for perm in permutations(impls.len()) {
+            let pi: Vec<String> = perm.iter().map(|k| impls[*k].clone()).collect();
+            out.push((format!("impls in order {:?}", perm), join(&decls, &pi)));
+        }
+    }
+    out.push(("impls before declarations".into(), join(&impls, &decls)));
+    let rd: Vec<String> = decls.iter().rev().cloned().collect();
+    out.push(("declarations reversed".into(), join(&rd, &impls)));
+    let ra: Vec<String> = items.iter().rev().cloned().collect();
+    out.push(("everything reversed".into(), ra.join(" ")));
+    let orig = items.join(" ");
+    let mut seen = std::collections::BTreeSet::new();
+    seen.insert(orig);
+    out.retain(|(_, t)| seen.insert(t.clone()));
+    out
+}
+
+/// The C07 (associated types) and C05 (auto traits) fragments: text-level families, reordered at item level.
+fn run_text_families(rep: &Report, thorough: bool) {
+    use rayon::prelude::*;
+    let mut cases = super::textcorpus::assoc(thorough);
+    cases.extend(super::textcorpus::auto(false));
+    let cfgs = [SolverCfg::SLG, SolverCfg::REC];
+    cases.par_iter().enumerate().for_each(|(ci, case)| {
+        if !thorough && case.family == "auto" && ci % 2 == 1 {
+            return; // quick tier: every second auto-trait program
+        }
+        let mut local: BTreeMap<String, u64> = BTreeMap::new();
+        let Ok(base_p) = drive::load_program(&case.program) else { return };
+        let base: Vec<Option<Vec<Option<DSol>>>> = case
+            .goals
+            .iter()
+            .map(|g| {
+                let peeled = drive::peel(&base_p, g).ok()?;
+                Some(
+                    cfgs.iter()
+                        .map(|cfg| match drive::solve_fresh(&base_p, &peeled, *cfg).0 {
+                            Caught::Ok(s) => Some(s),
+                            _ => None,
+                        })
+                        .collect(),
+                )
+            })
+            .collect();
+        for (desc, text) in text_variants(&case.program) {
+            let chalk = match drive::load_program(&text) {
+                Ok(c) => c,
+                Err(e) => {
+                    rep.machinery_error(format!("reordered {} program does not lower: {} :: {}", case.family, e, text));
+                    continue;
+                }
+            };
+            *local.entry(format!("orderings_{}", case.family)).or_insert(0) += 1;
+            *local.entry("orderings".into()).or_insert(0) += 1;
+            for (k, g) in case.goals.iter().enumerate() {
+                let Some(wants) = &base[k] else { continue };
+                let Ok(peeled) = drive::peel(&chalk, g) else { continue };
+                for (ci2, cfg) in cfgs.iter().enumerate() {
+                    let Some(want) = &wants[ci2] else { continue };
+                    let (r, _) = drive::solve_fresh(&chalk, &peeled, *cfg);
+                    *local.entry("solver_calls".into()).or_insert(0) += 1;
+                    let Caught::Ok(got) = r else { continue };
+                    if &got != want {
+                        let site = if trivial_unique_vs_unknown(&got, want) {
+                            format!("{}/trivial-unique-vs-unknown", cfg.short())
+                        } else if nonlinear_only(&got, want) {
+                            format!("{}/nonlinear-only", cfg.short())
+                        } else {
+                            format!("{}/{}", cfg.short(), case.family)
+                        };
+                        rep.violation(Violation {
+                            property: "C13".into(),
+                            kind: "answer-depends-on-declaration-order".into(),
+                            site,
+                            what: format!("{} `{}`: source order gives {:?}; reordering ({}) gives {:?}", cfg.name(), g, want, desc, got),
+                            input: json!({"program": case.program, "reordered_program": text, "goal": g, "solver": cfg.name(), "reordering": desc}),
+                        });
+                    } else if !matches!(got, DSol::NoSolution) {
+                        *local.entry("agreeing_non_trivial_answers".into()).or_insert(0) += 1;
+                    }
+                }
+            }
+        }
+        rep.merge_counts(&local);
+    });
+}
+
 pub fn run_c13(rep: &Report) -> i32 {
     let thorough = rep.is_thorough();
     let corpora = core_corpora(thorough, 1);
@@ -239,7 +359,8 @@ pub fn run_c13(rep: &Report) -> i32 {
         }
         rep.merge_counts(&local);
     });
-    c01::vacuity(rep, &["orderings", "agreeing_non_trivial_answers"]);
+    run_text_families(rep, thorough);
+    c01::vacuity(rep, &["orderings", "agreeing_non_trivial_answers", "orderings_assoc", "orderings_auto"]);
     let states = rep.get("orderings");
     let tr = rep.get("solver_calls");
     let nt = rep.get("agreeing_non_trivial_answers");
@@ -247,7 +368,7 @@ pub fn run_c13(rep: &Report) -> i32 {
         states,
         tr,
         nt,
-        "for every program of the reduced C01 corpus: every permutation of its impls (with and without reversed where-clause lists), every permutation of its traits, every permutation of its structs, impls placed before all declarations, and everything reversed; each reordered program is parsed and lowered afresh and every selected goal solved by both solvers; the decoded answer (by item name) must equal the source-order answer unless REF shows the search exceeds the solver's size limit; non-trivial = compared answers that are not `No possible solution`",
+        "for every program of the reduced C01 corpus: every permutation of its impls (with and without reversed where-clause lists), every permutation of its traits, every permutation of its structs, impls placed before all declarations, and everything reversed; each reordered program is parsed and lowered afresh and every selected goal solved by both solvers; the decoded answer (by item name) must equal the source-order answer unless REF shows the search exceeds the solver's size limit; the same for the text-level families of the C07 fragment (associated types: subsets of 11 impls incl. impls told apart by where-clauses only) and the C05 fragment (auto traits: field lists x explicit impls): every permutation of the impl items, impls before declarations, declarations reversed, everything reversed; non-trivial = compared answers that are not `No possible solution`",
         true,
         &["answers are compared after decoding ids to names; constraints included"],
     )
